@@ -1,5 +1,5 @@
-(* C18 - Proof verifiers are total (path proofs and the per-path update verifier here; multi-proof
-   totality is added when proved). *)
+(* C18 - Proof verifiers are total: path proofs, the per-path update verifier, multi-proofs and
+   the multi-proof update verifier. *)
 From Nomt Require Import Base Hash Trie Result PathProof BuildTrie VerifyUpdate
      Base_proofs Trie_proofs PathProof_proofs BuildTrie_proofs VerifyUpdate_proofs.
 
@@ -41,3 +41,30 @@ Theorem C18_verify_update_never_panics : forall (H : Hasher) root (paths : list 
   verify_update H 256 root paths <> Panic.
 Proof. exact VerifyUpdate_proofs.verify_update_never_panics. Qed.
 Print Assumptions C18_verify_update_never_panics.
+
+(* ------------------------------------------------------------------------------------------ *)
+(* multi-proofs                                                                                 *)
+From Nomt Require Import MultiProof MultiUpdate MultiProof_proofs Extra2_proofs.
+
+(* ANY multi-proof object, ANY root: a verdict, never a panic (no out-of-bounds index, no
+   arithmetic underflow, the recursion's fuel suffices) *)
+Theorem C18_multi_verify_total : forall (H : Hasher) (mp : multi_proof H) root,
+  MultiProof.verify H mp root <> Panic.
+Proof. exact MultiProof_proofs.multi_verify_total. Qed.
+Print Assumptions C18_multi_verify_total.
+
+(* queries on anything MultiProof::verify can return (terminal key paths have the type's length) *)
+Theorem C18_multi_confirm_total : forall (H : Hasher) (mp : multi_proof H) root v k x,
+  mp_typed 256 mp -> MultiProof.verify H mp root = Ok v -> length k = 256 ->
+  MultiProof.confirm_value H v (k, x) <> Panic /\ MultiProof.confirm_nonexistence H v k <> Panic.
+Proof. exact Extra2_proofs.multi_confirm_total_of_verify. Qed.
+Print Assumptions C18_multi_confirm_total.
+
+(* the multi-proof update verifier on anything verify can return and ANY operation list over
+   256-bit keys (unsorted, duplicated, out of scope ...): an error value or a root, never a panic *)
+Theorem C18_multi_verify_update_total : forall (H : Hasher) (mp : multi_proof H) root v ops,
+  mp_typed 256 mp -> MultiProof.verify H mp root = Ok v ->
+  (forall k o, In (k, o) ops -> length k = 256) ->
+  MultiUpdate.verify_update H 256 v ops <> Panic.
+Proof. exact MultiProof_proofs.multi_verify_then_update_total. Qed.
+Print Assumptions C18_multi_verify_update_total.
